@@ -1052,6 +1052,20 @@ func eval(c *item) *result {
 	return res
 }
 
+// safeEval is eval, surviving a Go panic outside hlib.Guard (possible when a broken lib/interval
+// writes to its package-level big.Ints while other cases read them concurrently).
+func safeEval(c *item) (res *result) {
+	defer func() {
+		if e := recover(); e != nil {
+			sharedCorrupt.Store(true)
+			interval.VerifSharedRestore()
+			res = &result{line: c.line(), out: "panic"}
+			res.fail("harness-panic:"+c.kind+c.op, fmt.Sprint("panic outside the guarded call: ", e))
+		}
+	}()
+	return eval(c)
+}
+
 // ---- runner: generate sequentially, evaluate in parallel, emit sequentially
 
 type runner struct {
@@ -1091,7 +1105,7 @@ func (q *runner) flush() {
 		go func(w int) {
 			defer wg.Done()
 			for i := w; i < n; i += workers {
-				results[i] = eval(q.batch[i])
+				results[i] = safeEval(q.batch[i])
 			}
 		}(w)
 	}
@@ -1102,7 +1116,7 @@ func (q *runner) flush() {
 		interval.VerifSharedRestore()
 		sharedCorrupt.Store(false)
 		for i := 0; i < n; i++ {
-			results[i] = eval(q.batch[i])
+			results[i] = safeEval(q.batch[i])
 		}
 		q.r.Count("batch-rerun-sequentially")
 	}
